@@ -25,8 +25,12 @@ type cfg struct {
 	mode   ekit.Mode
 	unix   bool
 	k      int
-	origin string // onopen | ondata | after | race | sendfile | two
+	origin string // onopen | ondata | after | race | sendfile | two | rw | ondial | again | ondata-again | dial-again | dial-then
 	p, d   int
+}
+
+func (c cfg) dial() bool {
+	return c.origin == "ondial" || c.origin == "dial-again" || c.origin == "dial-then"
 }
 
 func (c cfg) name() string {
@@ -48,7 +52,7 @@ func body(c cfg) func() {
 		c.mode.Apply(&conf)
 		g := nbio.NewEngine(conf)
 		conn, peer := ekit.Stream(c.unix, c.k, 64)
-		if c.origin == "ondial" {
+		if c.dial() {
 			conn, peer = nil, nil // the connection comes from DialAsync
 			vsys.DialSndCap = c.k
 		}
@@ -94,7 +98,7 @@ func body(c cfg) func() {
 			// the rest of the registration
 			g.OnOpen(func(cc *nbio.Conn) { vsched.GoNamed("writer", func() { write(c.k + 3) }) })
 		}
-		if c.origin == "ondata" {
+		if c.origin == "ondata" || c.origin == "ondata-again" {
 			g.OnData(func(cc *nbio.Conn, data []byte) { write(c.k + 3) })
 		}
 		inbound := 0
@@ -105,8 +109,8 @@ func body(c cfg) func() {
 			vsched.Fail("harness|engine start: %v", err)
 			return
 		}
-		switch c.origin {
-		case "ondial":
+		switch {
+		case c.dial():
 			// the write is issued inside the dial callback (the fd is registered read+write then)
 			err := g.DialAsync("tcp", "127.0.0.1:80", func(cc *nbio.Conn, err error) {
 				if err != nil {
@@ -114,7 +118,9 @@ func body(c cfg) func() {
 					return
 				}
 				conn = cc
-				write(c.k + 3)
+				if c.origin != "dial-then" {
+					write(c.k + 3)
+				}
 			})
 			if err != nil {
 				vsched.Fail("harness|DialAsync: %v", err)
@@ -143,8 +149,10 @@ func body(c cfg) func() {
 				vsched.GoNamed("writer", func() { write(c.k + 1); write(c.k + 2) })
 			case "sendfile":
 				vsched.GoNamed("writer", func() { write(c.k + 1); sendfile(c.k + 2); write(2) })
-			case "ondata":
+			case "ondata", "ondata-again":
 				vsched.GoNamed("peer-sender", func() { peer.Write([]byte{1}) })
+			case "again":
+				vsched.GoNamed("writer", func() { write(c.k + 3) })
 			case "rw":
 				// inbound traffic is being handled while another thread creates a backlog
 				vsched.GoNamed("peer-sender", func() { peer.Write([]byte{1}); peer.Write([]byte{2}) })
@@ -153,17 +161,37 @@ func body(c cfg) func() {
 		}
 		// fair drain
 		rounds := 0
-		for {
-			vsched.WaitIdle()
-			if peer.Queued() == 0 {
-				break
+		drain := func() bool {
+			for {
+				vsched.WaitIdle()
+				if peer.Queued() == 0 {
+					return true
+				}
+				peer.Read(0)
+				rounds++
+				if rounds > 400 {
+					vsched.Fail("harness|drain does not terminate")
+					return false
+				}
 			}
-			peer.Read(0)
-			rounds++
-			if rounds > 200 {
-				vsched.Fail("harness|drain does not terminate")
-				return
-			}
+		}
+		if !drain() {
+			return
+		}
+		// second round, from a state reached by a complete first round (the first backlog was
+		// created and flushed, the registration went back to read-only): a new backlog must be
+		// flushed as well
+		second := true
+		switch c.origin {
+		case "again", "dial-again", "dial-then":
+			vsched.GoNamed("writer", func() { write(c.k + 3) })
+		case "ondata-again":
+			vsched.GoNamed("peer-sender", func() { peer.Write([]byte{2}) })
+		default:
+			second = false
+		}
+		if second && !drain() {
+			return
 		}
 		snap := conn.VerifSnapshot()
 		st := vsys.GetStats()
@@ -217,8 +245,8 @@ func build(tier string) []*vkit.Scenario {
 	for _, m := range ekit.Modes {
 		for _, unix := range []bool{false, true} {
 			for _, k := range ks {
-				for _, o := range []string{"onopen", "ondata", "after", "race", "two", "sendfile", "rw", "ondial"} {
-					if o == "ondial" && unix {
+				for _, o := range []string{"onopen", "ondata", "after", "race", "two", "sendfile", "rw", "ondial", "again", "ondata-again", "dial-again", "dial-then"} {
+					if strings.Contains(o, "dial") && unix {
 						continue
 					}
 					p, d := 3, 2
@@ -240,7 +268,7 @@ func main() {
 	defer ekit.CleanupFiles()
 	vkit.Main(&vkit.Spec{
 		Property: "C04", Level: "model_checking",
-		Rule: "one scenario = transport x epoll mode x socket capacity K x origin of the write (OnOpen before registration, OnData on the poller, another thread after / racing AddConn, two writes, Sendfile behind a backlog); every interleaving of writer, poller and the peer's reads within the preemption bound and every kernel answer within the deviation bound; liveness decided on terminal states after a fair drain; non-trivial = the execution created a backlog (EAGAIN or short write)",
+		Rule: "one scenario = transport x epoll mode x socket capacity K x origin of the write (OnOpen before registration, OnData on the poller, another thread after / racing AddConn, two writes, Sendfile behind a backlog, inside the dial callback; and second rounds from non-initial states: a new backlog after the first one was flushed completely, after a dial whose callback left none, a second OnData write); every interleaving of writer, poller and the peer's reads within the preemption bound and every kernel answer within the deviation bound; liveness decided on terminal states after a fair drain; non-trivial = the execution created a backlog (EAGAIN or short write)",
 		Assumptions: []string{
 			"simulated kernel: writability wake-ups are delivered only after the socket reported no space (TCP semantics) and as soon as at least one byte is free; every verdict is taken after the peer drained everything",
 			"fair drain: the peer reads everything whenever anything is queued; no further call by the application",
